@@ -146,6 +146,41 @@ def check_two_objects(args):
         return "%s: two interleaved objects influence each other: %s vs alone %s" % (cls, (ra, rb), (alone_a, alone_b))
     return None
 
+def check_forwarded(args):
+    """"unpack never changes any other object": x decodes a buffer, a second object y of the class is given x's
+    field VALUES by plain assignment (y.f = x.f — the way a time stamp or a payload is forwarded), then x decodes
+    another buffer / is packed again; y's observable state and encoding must stay exactly as they were"""
+    cls, opts = args["cls"], args["opts"]
+    a = ADAPTERS[cls]
+    cg = _classgens()[cls]
+    po = [pyval(parse_val(v)) for v in opts]
+    ua = [pyval(parse_val(v)) for v in cg.unpack_args]
+    x, y = a.ctor(*po), a.ctor(*po)
+    if guarded(lambda: a.unpack(x, bytes.fromhex(args["buf1"]), *ua))[0] != "ok":
+        return None
+    for f in a.fields:
+        if hasattr(x, f):
+            try:
+                setattr(y, f, getattr(x, f))
+            except Exception:
+                pass
+    before = guarded(lambda: canon(y))
+    pk_before = guarded(lambda: a.pack(y, *[pyval(parse_val(v)) for v in cg.pack_args])) if cg.can_pack else None
+    after_pack = guarded(lambda: canon(y))
+    for b in args["bufs"]:
+        guarded(lambda: a.unpack(x, bytes.fromhex(b), *ua))
+        if cg.can_pack and args.get("repack"):
+            guarded(lambda: a.pack(x, *[pyval(parse_val(v)) for v in cg.pack_args]))
+    after = guarded(lambda: canon(y))
+    if before[0] == "ok" and after[0] == "ok" and after[1] != (after_pack[1] if after_pack[0] == "ok" else before[1]):
+        return "%s: an object given another's field values changed when the OTHER object decoded its next buffer: %s -> %s" % (
+            cls, after_pack[1][:160], after[1][:160])
+    if pk_before is not None and pk_before[0] == "ok":
+        pk_after = guarded(lambda: a.pack(y, *[pyval(parse_val(v)) for v in cg.pack_args]))
+        if pk_after[0] == "ok" and pk_after[1] != pk_before[1]:
+            return "%s: an object given another's field values encodes differently after the OTHER object decoded its next buffer" % cls
+    return None
+
 def _shrink_ops(args, key, check, what):
     """greedy removal of operations while the check still fails (minimal replay)"""
     ops = list(args[key])
@@ -269,6 +304,26 @@ def oracles_C13(ctx, hints):
             w = check_two_objects(args)
             if w:
                 fails.append(Failure("two_objects", args, w, {"class": cg.cls, "check": "aliasing"}))
+                break
+    for name, cg in sorted(_classgens().items()):             # field values forwarded to a second object
+        if not (cg.can_unpack and cg.can_pack):
+            continue
+        for opts in cg.opts[:2]:
+            bufs = []
+            for _ in range(ctx.scale(8, 60)):
+                b = _valid_bytes(cg, opts, gen.sets(cg.valid(ctx.rng)))
+                if b:
+                    bufs.append(b.hex())
+            bad = False
+            for i in range(len(bufs) - 1):
+                args = {"cls": cg.cls, "opts": list(opts), "buf1": bufs[i], "bufs": bufs[i + 1:i + 3], "repack": i % 2 == 1}
+                n += 1
+                w = check_forwarded(args)
+                if w:
+                    fails.append(Failure("forwarded", args, w, {"class": cg.cls, "check": "aliasing"}))
+                    bad = True
+                    break
+            if bad:
                 break
     ctx.count("oracle_evaluations", n)
     return fails + oracle_no_sharing(ctx)
@@ -495,5 +550,5 @@ def oracles_C08(ctx, hints):
     ctx.count("oracle_evaluations", n)
     return fails
 
-ORACLES = {"no_sharing": check_no_sharing, "history_independence": check_history_independence, "two_objects": check_two_objects,
+ORACLES = {"no_sharing": check_no_sharing, "forwarded": check_forwarded, "history_independence": check_history_independence, "two_objects": check_two_objects,
            "eq": check_eq, "eq_decode": check_eq_decode, "eq_foreign": check_eq_foreign, "total": check_total}
